@@ -54,7 +54,7 @@ CheckComm(r) ==
    r.kind = "comm" =>
       /\ Ck("C17", r, "C17.rendered", r.cls # "raw" => r.decoded, r.diff)
       /\ Ck("C17", r, "C17.accepted", r.decoded => r.accepted, r.diff)
-      /\ Ck("C17", r, "C17.octets", r.accepted => (WfUpdate(r.bin, TRUE) /\ (r.cls # "raw" => SameExt(AttrValueOf(r.bin, r.sub), r.ref))), r.text)
+      /\ Ck("C17", r, "C17.octets", r.accepted => (WfUpdate(r.bin, r.asn4) /\ (r.cls # "raw" => SameExt(AttrValueOf(r.bin, r.sub), r.ref))), r.text)
       /\ Ck("C17", r, "C17.sametext", r.accepted => r.text2_same, r.diff)
       /\ Ck("C17", r, "C17.comma", r.accepted => r.comma_same, r.diff)       \* the comma-list spelling of the REST layer means the same values
       /\ Ck("C17", r, "C17.sent", r.accepted => (r.sent_ok /\ r.wire = r.bin /\ r.exc = 0), r.text)
